@@ -49,6 +49,7 @@ type Frame struct {
 	loopOrd  map[ast.Node]int
 	name     string
 	recvTV   *TV // receiver binding for lock invariants
+	lit      *ast.FuncLit // the literal, for a closure frame
 }
 
 type loopCtx struct {
